@@ -21,6 +21,7 @@ global size_of usize == 8;
 //@item src/pwl/iter.rs | struct PolyhedraGen | pub-fields | no-debug
 //@item src/pwl/impl_infeasible_elim.rs | struct PerformanceCounter | no-debug
 //@include prelude/tol_spec.rs
+//@include prelude/cat_spec.rs
 //@include prelude/lp_oracle_tol_spec.rs
 //@include prelude/forward_spec.rs
 //@include prelude/reach_spec.rs
@@ -68,17 +69,9 @@ impl Polytope {
         ensures r == contains_tol(*self, *point)
     { unimplemented!() }
 }
-impl<A: Float> PolytopeG<A> {
-    // closure pipeline + ndarray::concatenate: panics when the column counts differ (bounded: bc poly)
-    #[verifier::external_body]
-    pub fn intersection_n(dim: usize, polys: &[Polytope]) -> (r: Polytope)
-        requires preds_ok(polys@, dim)
-        ensures r.ok(), r.mat.ncols() == dim,
-            // ASSUMED (rows are concatenated; bounded: bc poly): the intersection of the parts
-            forall|x: V| x.len() == dim ==> (#[trigger] r.sat(x) <==> forall|k: int| 0 <= k < polys@.len() ==> (#[trigger] polys@[k]).sat(x)),
-            // ASSUMED (same reason: every row of the result is a row of a part): a point tolerated by the result is tolerated by every part
-            forall|w: Array1<f64>| #[trigger] contains_tol(r, w) ==> forall|k: int| 0 <= k < polys@.len() ==> contains_tol(#[trigger] polys@[k], w),
-    { unimplemented!() }
+// contract proved on the real body in unit aff_algebra (ndarray::concatenate and the two view pipelines as trusted helpers)
+impl<D: Data<Elem = A>, A: Float + LinalgScalar> AffFuncBase<PolytopeT, D> {
+//@assumed units/aff_algebra.rs | intersection_n
 }
 
 impl PolyhedraGen {
@@ -350,6 +343,7 @@ impl AffTree<2> {
             proof {
                 assert(path.last() == node_idx);
                 lemma_region_covers(a0, hs, root, iter, path, poly, self.in_dim);
+                lemma_tol_parts(poly, iter.predicates@);
             }
 //@hint after let mut state = self.phase_inh(
             proof { lemma_wc_inh(a0, self.a(), iter, path, parent_idx, *hyperplane, state); }
